@@ -158,6 +158,32 @@ def extlock_part(work, rep, tier, seed, prop):
     rep.cov["evaluations"] += sum(1 for e in events if e["e"] == "post")
 
 
+def legacy_db_part(work, rep, tier, seed, prop):
+    """The production binary STARTED ON A DATABASE THE PINNED RELEASE WROTE (its schema, its parameter binding) that holds an acknowledged checkpoint
+    of size 1: the endpoint answers from that state - a stale old size gets 409 with the size, growth from 1 is accepted, a fork of the same size 409."""
+    build_driver()
+    c = bconsts("quick")
+    E = {"k": "empty"}
+    def ok(old, b, n, pf, **kw):
+        return dict({"op": "post", "kind": "ok", "log": "l1", "req": {"auth": "good", "old": old, "b": b, "n": n, "extra": 0, "stale": 0, "ext": 0, "pf": pf}}, **kw)
+    R12, R13 = {"k": "right", "b": 0, "m": 1, "n": 2}, {"k": "right", "b": 0, "m": 1, "n": 3}
+    sync = {"op": "preset", "kind": "ok", "log": "l1"}       # (tells the judge what the harness wrote into the file before the binary was started)
+    runs = [{"id": "legacydb-%s-a" % prop, "limit": 100000, "steps": [sync, ok(0, 0, 2, E), ok(0, 0, 1, E), ok(1, 0, 2, R12), ok(2, 1, 2, E)]},
+            {"id": "legacydb-%s-b" % prop, "limit": 100000, "steps": [sync, ok(0, 1, 2, E), ok(2, 0, 2, E), ok(1, 0, 3, R13)]}]
+    rp, rt = work.path("legacydb-%s.jsonl" % prop), work.path("legacydb-%s.ndjson" % prop)
+    write_runs(rp, params_of(c), runs)
+    o, dt = run_driver(["bastion-e2e", "-in", rp, "-out", rt, "-dir", work.sub("db"), "-seed", str(seed), "-prod", build_prod_binary(), "-legacy"], timeout=3000)
+    rep.notes.append("endpoint of the binary started on a database of the pinned release: %s" % o.strip())
+    events = read_ndjson(rt)
+    fails = bastion_judge(work, rep, c, rt, name="judge-legacydb")
+    seqfam.settle(rep, prop, fails, events, c)
+    posts = [e for e in events if e["e"] == "post"]
+    if not any(e["status"] == 409 for e in posts):
+        raise Inconclusive("the binary did not answer from the state in the release's database (no 409 seen): %s" % [e["status"] for e in posts])
+    rep.cov["requests_to_the_binary_started_on_a_release_database"] = len(posts)
+    rep.cov["evaluations"] += len(posts)
+
+
 def c10(work, tier, seed, replay):
     rep = Report("C10", tier, seed, "model_checking")
     rng = random.Random(seed)
@@ -269,6 +295,7 @@ def c10(work, tier, seed, replay):
     import checks_ops
     checks_ops.prod_conc_part(work, rep, tier, seed, "C10", "the endpoint's answer belongs to the request it answers")
     extlock_part(work, rep, tier, seed, "C10")
+    legacy_db_part(work, rep, tier, seed, "C10")
     rep.assumptions += ["the overlay shim builds the in-process handler exactly as FeedBastion does; a sample of the same runs goes end to end through the exported FeedBastion over TLS 1.3 + HTTP/2",
                         "monotonic clock for the rate-limit bounds"]
     return rep.finish()
